@@ -1,4 +1,4 @@
-__all__ = ['timerange', 'timediff', 'timeadd', 'cmp_time']
+__all__ = ['timerange', 'timediff', 'timeadd', 'cmp_time', 'rolldate']
 
 __doc__ = """
 .. _timetuple
@@ -60,6 +60,27 @@ def timeadd(datetime1, datetime2, eod=2400.0):
         time1 %= eod
         date1 -= 1
     return date1, time1
+
+
+def rolldate(date):
+    """Normalize julian dates (YYJJJ or YYYYJJJ; scalar or array) whose day
+    of year was incremented past the end of the year, e.g. 99366 -> 00001
+    and 2000367 -> 2001001. Two-digit years 70-99 are 1970-1999.
+    """
+    import numpy as np
+    date = np.array(date)
+    year, jday = np.divmod(date, 1000)
+    twodigit = year < 100
+    fullyear = np.where(twodigit, np.where(year >= 70, 1900, 2000) + year,
+                        year)
+    isleap = ((fullyear % 4 == 0) & (fullyear % 100 != 0)) | \
+        (fullyear % 400 == 0)
+    ndays = np.where(isleap, 366, 365)
+    over = jday > ndays
+    jday = np.where(over, jday - ndays, jday)
+    year = np.where(over, year + 1, year)
+    year = np.where(twodigit, year % 100, year)
+    return (year * 1000 + jday).astype(date.dtype)
 
 
 def cmp_time(lhs, rhs):
